@@ -191,8 +191,10 @@ def get_crop_item_from_points(points, wcs, crop_by_values, keepdims):
             result_is_scalar = False
             item.append(slice(None))
         else:
-            min_idx = min(axis_indices)
-            max_idx = max(axis_indices) + 1
+            # Points off the start of the array give negative indices, which must not be
+            # read as positions counted from the end of the axis.
+            min_idx = max(min(axis_indices), 0)
+            max_idx = max(max(axis_indices) + 1, 0)
             if max_idx - min_idx == 1 and not keepdims:
                 item.append(min_idx)
             else:
